@@ -24,7 +24,7 @@ def run(ctx):
         d2, h2, _ = enumerate_with_seeds(ROOTS, SEEDS, N=5, k=2, kseed=1)
         seen = {json.dumps(d, sort_keys=True) for d in descs}
         descs += [d for d in d2 if json.dumps(d, sort_keys=True) not in seen]
-    items = [{"G": d, "route": r} for d in descs for r in ("seal", "submit", "abort+seal", "abort+submit")]
+    items = [{"G": d, "route": r} for d in descs for r in ("seal", "submit", "abort+seal", "abort+submit", "instance+submit")]
     with Pool(seeds=hash_seeds(ctx), init="engines.gwork:init", recycle=5000) as pool:
         outs = pool.map("engines.gwork:eval_c14", items)
     attempts, sigs = 0, set()
@@ -44,7 +44,7 @@ def run(ctx):
     res.coverage = {
         "evaluations": attempts,
         "distinct_nontrivial": len(sigs),
-        "rule": "every description within (N,k) x {seal(), DRY_RUN submit, each also after a first sealing attempt that aborts half-way (instance() without path context)} (structural deviations: sharing, cycles, lists/dicts of configurations, task outputs, pre/init tasks, "
+        "rule": "every description within (N,k) x {seal(), DRY_RUN submit, DRY_RUN submit of a task first instantiated in a directory context of its own (values of configurations sealed earlier - upstream tasks - must not move), each also after a first sealing attempt that aborts half-way (instance() without path context)} (structural deviations: sharing, cycles, lists/dicts of configurations, task outputs, pre/init tasks, "
                 "meta flags; plus scalar deviations at depth 1) x {seal(), DRY_RUN submit} x every reachable node x every mutation attempt (assign each "
                 "parameter a type-correct new value, set_meta True/False, add_pretasks), identifiers of all nodes and the job directory re-read after "
                 "every attempt; evaluations = mutation attempts; distinct_nontrivial = distinct (signature, route)",
